@@ -1,6 +1,89 @@
 import DriverOps.Common
-/- driver ops with prefix "tf." (owned by the Transform model) -/
-open Lean Lasio
+import DriverOps.Data
+import DriverOps.Reader
+/- driver ops with prefix "tf." (owned by the Transform model)
 
-def handleTransform (op : String) (j : Json) : Except String Json :=
-  throw s!"op {op} not implemented"
+"tf.apply" {"text": t, "ts": [[name, args…] …]} → text          (`Tf.applyText`: split into lines, transform, concatenate)
+     ["insBlank", k, ws]   ["insComment", k, indent, text]   ["padLine", k, lead, trail]
+     ["repadLine", k, "SPACE"|"TAB"|"COMMA", [sep…]]          ["relayout", k, "Version"|"Well"|"Curves"|"Parameter"|"other", p0,…,p5]
+     ["crlf"]  ["lf"]  ["dropFinalNewline"]  ["addFinalNewline"]
+     ["rewrap", first, last, d, [width…]]                     ["redelim", first, last, vk, replace, from, to, [sep…]]
+"tf.read"  {"text", "ignore": bool, "case": "upper"|"lower"|"preserve", "engine": "numpy"|"normal", "null_policy": "strict"|"none",
+            "null": float-text|null, "floats": {token: float-text}}
+     → {"ok": {"sections": [[key, items|text]…], "steer": [vers, wrap, null, dlm],
+               "data": [{"first", "last", "res": {"ok": {"engine", "columns", "slots"}} | {"err": e}} …]}}
+     | {"err": […]} | "unmodelled"                            (`Tf.readFull` on `Rd.splitLines text`, LASF test included)
+"tf.skip"  {"line"} → bool    (`Tf.isSkip`)
+-/
+open Lean Lasio Lasio.Tf
+
+def tfSec (s : String) : SecName :=
+  match s with
+  | "Version" => .version | "Well" => .well | "Curves" => .curves | "Parameter" => .parameter | _ => .other
+
+def tfDlm (j : Json) : Except String Dt.Dlm := do
+  let s ← j.getStr?
+  match dtGetDlm s with
+  | some d => pure d
+  | none => throw s!"bad delimiter {s}"
+
+def tfTransform (j : Json) : Except String Transform := do
+  let a ← arr j
+  let name ← (a[0]!).getStr?
+  let nat (i : Nat) : Except String Nat := (a[i]!).getNat?
+  let str (i : Nat) : Except String Str := getS a[i]!
+  match name with
+  | "insBlank" => pure (.insBlank (← nat 1) (← str 2))
+  | "insComment" => pure (.insComment (← nat 1) (← str 2) (← str 3))
+  | "padLine" => pure (.padLine (← nat 1) (← str 2) (← str 3))
+  | "repadLine" => pure (.repadLine (← nat 1) (← tfDlm a[2]!) (← getList getS a[3]!))
+  | "relayout" =>
+    pure (.relayout (← nat 1) (tfSec (← (a[2]!).getStr?)) (← str 3) (← str 4) (← str 5) (← str 6) (← str 7) (← str 8))
+  | "crlf" => pure .crlf
+  | "lf" => pure .lf
+  | "dropFinalNewline" => pure .dropFinalNewline
+  | "addFinalNewline" => pure .addFinalNewline
+  | "rewrap" => pure (.rewrap (← nat 1) (← nat 2) (← nat 3) (← getList (fun x => x.getNat?) a[4]!))
+  | "redelim" =>
+    pure (.redelim (← nat 1) (← nat 2) (← nat 3) (← (a[4]!).getBool?) (← tfDlm a[5]!) (← tfDlm a[6]!) (← getList getS a[7]!))
+  | _ => throw s!"unknown transformation {name}"
+
+def tfDataRes (r : Except Dt.DErr (Dt.Engine × List (Dt.Slot × Dt.Column))) : Json :=
+  match r with
+  | .ok (used, curves) =>
+    Json.mkObj [("ok", Json.mkObj [
+      ("engine", Json.str (match used with | .numpy => "numpy" | .normal => "normal")),
+      ("columns", jlist (fun sc => dtJColumn sc.2) curves),
+      ("slots", jlist (fun sc => dtJSlot sc.1) curves)])]
+  | .error e => Json.mkObj [("err", dtJErr e)]
+
+def handleTransform (op : String) (j : Json) : Except String Json := do
+  match op with
+  | "tf.apply" =>
+    let text ← fldS j "text"
+    let ts ← getList tfTransform (← fld j "ts")
+    pure (jstr (applyText ts text))
+  | "tf.skip" => pure (Json.bool (isSkip (← fldS j "line")))
+  | "tf.read" =>
+    let text ← fldS j "text"
+    let ign ← (← fld j "ignore").getBool?
+    let c ← rdCase (← (← fld j "case").getStr?)
+    let engine ← (← fld j "engine").getStr?
+    let np ← (← fld j "null_policy").getStr?
+    let null ← dtOptStr (← fld j "null")
+    let ft ← dtGetFloats (← fld j "floats")
+    let eng : Option Dt.Engine := match engine with | "numpy" => some .numpy | "normal" => some .normal | _ => none
+    let pol : Option Dt.NullPolicy := match np with | "strict" => some .strict | "none" => some .none | _ => none
+    match eng, pol with
+    | some e, some p =>
+      if text.take 4 == "LASF".toList then pure (rdErr .lasf)
+      else match readFull ⟨⟨ign, c⟩, ⟨e, p⟩⟩ (fun _ => null) ft (Rd.splitLines text) with
+        | .error e => pure (rdErr e)
+        | .ok r =>
+          pure (Json.mkObj [("ok", Json.mkObj [
+            ("sections", jlist (fun kv => Json.arr #[jstr kv.1, rdSecVal kv.2]) r.sections),
+            ("steer", Json.arr #[rdOpt r.steer.vers, rdOpt r.steer.wrap, rdOpt r.steer.null, rdOpt r.steer.dlm]),
+            ("data", jlist (fun (x : DataRead) => Json.mkObj [("first", jnat x.first), ("last", jnat x.last), ("res", tfDataRes x.res)])
+              r.data)])])
+    | _, _ => pure (Json.str "unmodelled")
+  | _ => throw s!"op {op} not implemented"
